@@ -88,3 +88,21 @@ func VerifHasAccount(km spectypes.KeyManager, pubKey []byte) bool {
 	acc, err := k.wallet.AccountByPublicKey(hex.EncodeToString(pubKey))
 	return err == nil && acc != nil
 }
+
+// VerifHasAccountNoLock is VerifHasAccount without taking the wallet lock: for read-back while a paused
+// BumpSlashingProtection holds the wallet lock (nothing mutates the wallet at that moment).
+func VerifHasAccountNoLock(km spectypes.KeyManager, pubKey []byte) bool {
+	k := km.(*ethKeyManagerSigner)
+	acc, err := k.wallet.AccountByPublicKey(hex.EncodeToString(pubKey))
+	return err == nil && acc != nil
+}
+
+// VerifWalletLocked reports whether the wallet lock is currently held for writing (a request that takes it would block).
+func VerifWalletLocked(km spectypes.KeyManager) bool {
+	k := km.(*ethKeyManagerSigner)
+	if k.walletLock.TryRLock() {
+		k.walletLock.RUnlock()
+		return false
+	}
+	return true
+}
